@@ -159,7 +159,9 @@ def apply_action(fit, ftype, a):
         elif name == "DoFit":
             fit.do_fit()
         elif name == "SetParamUnknown":
-            fit.set_parameter_values(no_such_parameter=1.0)
+            # a known name first, then the unknown one: nothing may have been assigned when the call raises
+            first = PARAMS[ftype][0]
+            fit.set_parameter_values(**{first: float(fit.parameter_name_value_dict[first]) + 1.7, "no_such_parameter": 1.0})
         elif name == "FixUnknown":
             fit.fix_parameter("no_such_parameter")
         elif name == "LimitUnknown":
@@ -185,10 +187,17 @@ def apply_action(fit, ftype, a):
                 fit.add_error("z", err_val=0.1, name="bad")
             else:
                 fit.add_error(err_val=0.1, name="bad", reference="elsewhere")
-        elif name == "SetDataPoissonNegative":
-            fit.data = (np.array([2.0, -1.0, 9.0, 7.0, 2.0]), np.linspace(0.0, 5.0, 6))
-        elif name == "SetDataPoissonFractional":
-            fit.data = (np.array([2.0, 5.5, 9.0, 7.0, 2.0]), np.linspace(0.0, 5.0, 6))
+        elif name in ("SetDataPoissonNegative", "SetDataPoissonFractional"):
+            bad = (np.array([2.0, -1.0, 9.0, 7.0, 2.0]) if name.endswith("Negative") else np.array([2.0, 5.5, 9.0, 7.0, 2.0]), np.linspace(0.0, 5.0, 6))
+            # every Poisson likelihood must refuse such data: the likelihood-ratio variant is tried on a fit of its own first
+            side = make_fit("hist", cost="nllr")
+            try:
+                side.data = bad
+            except Exception:
+                pass
+            else:
+                return "none"           # accepted by the likelihood-ratio variant: reported as an accepted invalid call
+            fit.data = bad
         elif name == "SetDataWrongType":
             from kafe2 import IndexedContainer
             fit.data = IndexedContainer([1.0, 2.0, 3.0])
